@@ -26,7 +26,7 @@ import (
 	"verif/internal/vk"
 )
 
-var c03opts = specgen.Options{MaxDepth: 3, Validators: true, Sums: true, AllOf: true, Refs: true, Nullable: true, Maps: true}
+var c03opts = specgen.Options{MaxDepth: 3, Validators: true, Sums: true, Discs: true, AllOf: true, Refs: true, Nullable: true, Maps: true}
 
 type specCase struct {
 	Doc   specgen.Doc `json:"doc"`
